@@ -55,16 +55,10 @@ Proof.
     + cbn. lia.
 Qed.
 
-Lemma db_ex_mult : mult_ok db_ex.
-Proof.
-  intros fuel f a b k H. do 5 (destruct f as [|f]; [cbn in H; try discriminate; inversion H; subst; tauto|]).
-  cbn in H. destruct f; discriminate.
-Qed.
-
 Lemma history_independent_c :
   forall BUF dec, (forall S, dec_ok BUF dec S) ->
-  forall d, wf_db d -> mult_ok d ->
+  forall d, wf_db d ->
   forall (h : list call) f fd k n,
     nth_error (d_fields d) f = Some fd -> 0 <= k <= 2 ^ 61 -> 0 <= n <= 2 ^ 61 ->
     snd (step dec d (run dec d (init d) h) (CGet f (Some k) n)) = RData (spec_window d f k n).
-Proof. intros BUF dec Hd d Hw Hm h f fd k n. apply (history_independent_l BUF dec Hd d Hw h f fd k n Hm). Qed.
+Proof. intros BUF dec Hd d Hw h f fd k n. apply (history_independent_l BUF dec Hd d Hw h f fd k n). Qed.
